@@ -382,7 +382,7 @@ class Normaliser:
                 t["arms"] = [[v, m.get(b, redirect.get(b, b))] for v, b in t["arms"]]
         return m
 
-    def _caller_chain(self, gj, start, holder):
+    def _caller_chain(self, gj, start, holder, strict=False):
         """from block `start`, the straight-line blocks up to the switch that decides on the value in `holder`.
         returns (chain block ids, decide(state) -> successor or None) or None"""
         holders, negs, flows = {holder}, set(), set()
@@ -397,6 +397,8 @@ class Normaliser:
             chain.append(cur)
             discr_of = {}
             for s in blk["stmts"]:
+                if s["k"] == "assign" and strict and (s["lhs"]["l"] in holders or s["lhs"]["l"] in negs or s["lhs"]["l"] in flows):
+                    return None         # the value decided on is overwritten on the way
                 if s["k"] != "assign" or s["lhs"].get("p"):
                     continue
                 rv, l = s["rv"], s["lhs"]["l"]
@@ -523,6 +525,80 @@ class Normaliser:
             if "arms" in t:
                 t["arms"] = [[v, rm.get(b, conts[key] if b == cont else b)] for v, b in t["arms"]]
 
+    def thread_known_values(self, gj, types, budget=40):
+        """Jump threading: a block that leaves a known `true` / `false` / enum variant in a local and runs straight into a
+        join followed by the switch on that local (`matches!(change, X)`, `a && b`, `let ok = if .. {true} else {false}; if ok`,
+        a decision value handed from one spliced helper to the next) is routed to the arm it takes, on a private copy of the
+        straight-line blocks in between.  Purely a CFG refinement: no path is added, paths that cannot be taken disappear."""
+        blocks = gj["blocks"]
+        done = 0
+        tried = set()
+        headers = None
+        while done < budget:
+            preds = {}
+            for i, blk in enumerate(blocks):
+                if blk["cleanup"]:
+                    continue
+                for x in self._normal_refs(blk["term"]):
+                    preds.setdefault(x, set()).add(i)
+            reach = set()
+            stack = [0]
+            while stack:
+                x = stack.pop()
+                if x in reach or x is None or x >= len(blocks):
+                    continue
+                reach.add(x)
+                stack.extend(self._normal_refs(blocks[x]["term"]))
+            hit = None
+            for a in sorted(reach):
+                blk = blocks[a]
+                t = blk["term"]
+                if blk["cleanup"] or t["k"] not in ("goto", "falseedge", "drop") or t.get("target") is None:
+                    continue
+                m = t["target"]
+                if m == a:
+                    continue
+                cands = []
+                for st_ in blk["stmts"]:
+                    if st_["k"] == "assign" and not st_["lhs"].get("p") and st_["lhs"]["l"] not in cands:
+                        cands.append(st_["lhs"]["l"])
+                for l in cands:
+                    if (a, l) in tried:
+                        continue
+                    if t["k"] == "drop" and t.get("pl", {}).get("l") == l:
+                        continue
+                    st = self._assigned_state(blk, l)
+                    if st is None or st == "U":
+                        continue
+                    tried.add((a, l))
+                    ch = self._caller_chain(gj, m, l, strict=True)
+                    if ch is None:
+                        continue
+                    chain, decide = ch
+                    nxt = decide(st)
+                    if nxt is None or a in chain:
+                        continue
+                    if headers is None:
+                        # loop headers are never copied: a second way into a loop body would dissolve the loop
+                        from mir import Body
+                        from cfg import CFG
+                        headers = set(CFG(Body(gj, "lib", types)).loops())
+                    if headers & set(chain):
+                        continue
+                    hit = (a, chain, nxt)
+                    break
+                if hit:
+                    break
+            if hit is None:
+                break
+            a, chain, nxt = hit
+            cm = self._clone_blocks(gj, chain, {})
+            last = cm[chain[-1]]
+            blocks[last]["term"] = _goto(nxt, blocks[last]["term"].get("span"))
+            blocks[a]["term"]["target"] = cm[chain[0]]
+            done += 1
+        return done > 0
+
     @staticmethod
     def _blank_unreachable(gj):
         n = len(gj["blocks"])
@@ -600,6 +676,12 @@ class Normaliser:
         if self.devirtualise_fn_items(b, gj):
             changed = True
         if self.splice_closure_calls(b, gj):
+            changed = True
+        if self.thread_known_values(gj, b.types):
+            self._blank_unreachable(gj)
+            changed = True
+        if prune_known_variants(gj, f.adts):
+            self._blank_unreachable(gj)
             changed = True
         if changed:
             b._blocks = None
@@ -796,6 +878,165 @@ class Normaliser:
         f.norm_log = self.log
         f.norm_removed = removed
         return self
+
+
+def prune_known_variants(gj, adts):
+    """Conditional propagation of `which variant` for locals that hold an enum built on the way (`let change = decide(..)`
+    spliced into its caller, then `match change` -- directly or inside another spliced helper): arms of a switch on the
+    discriminant that no path can take are cut.  Sound: a local is only tracked while every assignment to it is an enum
+    aggregate or a whole move/copy of a tracked local, it is never borrowed mutably, and only data-carrying enums of the
+    crate and Option/Result are considered (their discriminants are the variant indices).  Returns True when an edge was cut."""
+    blocks = gj["blocks"]
+    n = len(blocks)
+
+    def ok_adt(path):
+        if path in ("std::option::Option", "std::result::Result"):
+            return True
+        a = adts.get(path)
+        return a is not None and a.get("kind") == "Enum" and any(v.get("fields") for v in a["variants"])
+
+    bad = set()
+    ref_of = {}
+    nassign = {}
+    for blk in blocks:
+        for s in blk["stmts"]:
+            if s["k"] != "assign":
+                continue
+            rv = s["rv"]
+            if rv["k"] in ("ref", "rawptr"):
+                if rv["k"] == "rawptr" or rv.get("bk") == "mut":
+                    bad.add(rv["pl"]["l"])
+                elif not s["lhs"].get("p") and not rv["pl"].get("p"):
+                    ref_of.setdefault(s["lhs"]["l"], []).append(rv["pl"]["l"])
+            if not s["lhs"].get("p"):
+                nassign[s["lhs"]["l"]] = nassign.get(s["lhs"]["l"], 0) + 1
+    ref_of = {r: xs[0] for r, xs in ref_of.items() if len(xs) == 1 and nassign.get(r) == 1}
+
+    def succs(i):
+        t = blocks[i]["term"]
+        out = []
+        for k in ("target", "resume", "otherwise", "drop"):
+            if t.get(k) is not None:
+                out.append(t[k])
+        for _, b in t.get("arms", []):
+            out.append(b)
+        return out
+
+    def transfer(i, st):
+        st = dict(st)
+        blk = blocks[i]
+        discr_of = {}
+        for s in blk["stmts"]:
+            if s["k"] == "setdiscr":
+                st.pop(s["lhs"]["l"], None)
+                continue
+            if s["k"] != "assign":
+                continue
+            l = s["lhs"]["l"]
+            rv = s["rv"]
+            if s["lhs"].get("p"):
+                st.pop(l, None)
+                continue
+            if rv["k"] == "agg" and rv.get("ak") == "adt" and rv.get("is_enum") and "vidx" in rv and ok_adt(rv.get("adt")) and l not in bad:
+                st[l] = frozenset([rv["vidx"]])
+            elif rv["k"] == "use" and isinstance(rv["op"], dict) and (rv["op"].get("m") or rv["op"].get("c")) is not None:
+                pl = rv["op"].get("m") or rv["op"].get("c")
+                if not pl.get("p") and pl["l"] in st and l not in bad:
+                    st[l] = st[pl["l"]]
+                else:
+                    st.pop(l, None)
+            else:
+                st.pop(l, None)
+                if rv["k"] == "discr":
+                    proj = rv["pl"].get("p", [])
+                    if not proj:
+                        discr_of[l] = rv["pl"]["l"]
+                    elif proj == ["deref"] and rv["pl"]["l"] in ref_of:
+                        discr_of[l] = ref_of[rv["pl"]["l"]]
+        t = blk["term"]
+        edges = {}
+        base = st
+        if t["k"] in ("call", "yield") and t.get("dest") is not None:
+            base = dict(st)
+            base.pop(t["dest"]["l"], None)
+        if t["k"] == "yield" and t.get("resume_arg") is not None and isinstance(t["resume_arg"], dict):
+            base = dict(base)
+            base.pop(t["resume_arg"].get("l"), None)
+        cut = []
+        if t["k"] == "switch":
+            d = t["discr"].get("m") or t["discr"].get("c")
+            x = discr_of.get(d["l"]) if d is not None and not d.get("p") else None
+            if x is not None and x in st:
+                S = st[x]
+                armvals = set(int(v) for v, _ in t["arms"])
+                for v, b in t["arms"]:
+                    if int(v) in S:
+                        e = dict(base)
+                        e[x] = frozenset([int(v)])
+                        edges.setdefault(b, []).append(e)
+                    else:
+                        cut.append(("arm", int(v)))
+                rest = S - armvals
+                if rest:
+                    e = dict(base)
+                    e[x] = frozenset(rest)
+                    edges.setdefault(t["otherwise"], []).append(e)
+                elif t.get("otherwise") is not None:
+                    cut.append(("otherwise", None))
+                return edges, cut
+        for b in succs(i):
+            edges.setdefault(b, []).append(base)
+        return edges, cut
+
+    def join(a, b):
+        if a is None:
+            return b
+        out = {}
+        for k in a:
+            if k in b:
+                out[k] = a[k] | b[k]
+        return out
+
+    entry = {0: {}}
+    work = [0]
+    cuts = {}
+    steps = 0
+    while work and steps < 20000:
+        steps += 1
+        i = work.pop()
+        if i is None or i >= n or blocks[i]["cleanup"]:
+            continue
+        edges, cut = transfer(i, entry[i])
+        cuts[i] = cut
+        for b, sts in edges.items():
+            if b is None or b >= n:
+                continue
+            new = entry.get(b)
+            for e in sts:
+                new = join(new, e)
+            if b not in entry or new != entry[b]:
+                entry[b] = new
+                work.append(b)
+    if steps >= 20000:
+        return False
+    changed = False
+    dead = None
+    for i, cut in cuts.items():
+        if not cut:
+            continue
+        t = blocks[i]["term"]
+        gone = {v for k, v in cut if k == "arm"}
+        if gone:
+            t["arms"] = [[v, b] for v, b in t["arms"] if int(v) not in gone]
+            changed = True
+        if any(k == "otherwise" for k, _ in cut):
+            if dead is None:
+                dead = len(blocks)
+                blocks.append({"cleanup": False, "stmts": [], "term": {"k": "unreachable", "span": t.get("span"), "exp": None}})
+            t["otherwise"] = dead
+            changed = True
+    return changed
+
 
 
 def _closure_only_called(self, kid):
